@@ -57,3 +57,39 @@ Proof.
       rewrite bdim_1_r. try rewrite bdim_1_l in B.
       destruct (bc_rev (rev p) dr); [discriminate | congruence].
 Qed.
+
+(* ------------------------------------------------------------------------------------ *)
+(** ** the pinned DiagLinearOperator.matmul agrees with torch.matmul on every operand torch accepts
+    (the defect is confined to operands torch refuses) *)
+
+Lemma torch_broadcast_app1 : forall x y u v,
+  torch_broadcast (x ++ [u]) (y ++ [v]) =
+  match bdim u v, torch_broadcast x y with Some d, Some r => Some (r ++ [d]) | _, _ => None end.
+Proof.
+  intros. unfold torch_broadcast. rewrite !rev_app_distr. simpl.
+  destruct (bdim u v); [|reflexivity]. destruct (bc_rev (rev x) (rev y)); reflexivity.
+Qed.
+
+Lemma bdim_refl : forall n, bdim n n = Some n.
+Proof. intro n. unfold bdim. rewrite Nat.eqb_refl. reflexivity. Qed.
+
+(* for every square operator shape (any batch) and every operand shape of any rank: if torch.matmul accepts, the
+   elementwise implementation returns exactly torch's result shape *)
+Theorem diag_matmul_valid_agrees : forall p n b s,
+  torch_matmul_shape (p ++ [n; n]) b = Some s -> pinned_diag_matmul (p ++ [n; n]) b = Ok s.
+Proof.
+  intros p n b s H. unfold pinned_diag_matmul. rewrite py_slice_to_m1'.
+  destruct (rev b) as [|q [|k bb]] eqn:Eb.
+  - apply rev_is_nil in Eb. subst b. unfold torch_matmul_shape in H. rewrite rev_app_distr in H. discriminate.
+  - apply rev_is_1 in Eb. subst b. rewrite torch_matmul_vector_rule in H. simpl length. simpl.
+    destruct (Nat.eqb_spec n q); [|discriminate]. injection H as <-. subst q.
+    pose proof (torch_broadcast_app1 p [] n n) as E. simpl app in E. rewrite E, bdim_refl, torch_broadcast_nil_r. reflexivity.
+  - pose proof (rev_is_2 _ _ _ _ Eb) as ->. rewrite torch_matmul_matrix_rule in H.
+    replace (length (rev bb ++ [k; q]) =? 1) with false by (symmetry; apply Nat.eqb_neq; rewrite app_length; simpl; lia).
+    destruct (Nat.eqb_spec n k); [|discriminate]. subst k.
+    destruct (torch_broadcast p (rev bb)) as [bt|] eqn:B; [|discriminate]. injection H as <-.
+    replace ((p ++ [n]) ++ [1]) with ((p ++ [n]) ++ [1]) by reflexivity.
+    replace (rev bb ++ [n; q]) with ((rev bb ++ [n]) ++ [q]) by (rewrite <- app_assoc; reflexivity).
+    rewrite torch_broadcast_app1, bdim_1_l, torch_broadcast_app1, bdim_refl, B. simpl.
+    rewrite <- app_assoc. reflexivity.
+Qed.
